@@ -35,28 +35,30 @@ def gen_cases(fmt, tier, workers=None):
     runs = []
     if fmt == "snappy":
         if tier == "quick":
-            runs = [("Depth = 2\nFullDepth = 2\nHuge = FALSE", None), ("Depth = 3\nFullDepth = 1\nHuge = FALSE", 3)]
+            runs = [("Depth = 2\nFullDepth = 2\nHuge = FALSE", None), ("Depth = 3\nFullDepth = 1\nHuge = FALSE", None)]
         else:
-            runs = [("Depth = 3\nFullDepth = 2\nHuge = FALSE", None), ("Depth = 2\nFullDepth = 2\nHuge = TRUE", "huge")]
+            runs = [("Depth = 3\nFullDepth = 2\nHuge = FALSE", None), ("Depth = 2\nFullDepth = 2\nHuge = TRUE", None)]
         mod = "MC_SnappyGen"
     else:
         if tier == "quick":
-            runs = [("Depth = 2\nFullDepth = 1", None), ("Depth = 3\nFullDepth = 0", 3)]
+            runs = [("Depth = 2\nFullDepth = 1", None), ("Depth = 3\nFullDepth = 0", None)]
         else:
             runs = [("Depth = 3\nFullDepth = 1", None)]
         mod = "MC_Lz4Gen"
     cases, results = [], []
     done = cl.parallel({k: (lambda consts=consts: cl.tlc_gen(mod, consts, what="%s %s" % (mod, consts.replace("\n", " ")), workers=workers))
                         for k, (consts, flt) in enumerate(runs)})
+    import json
+    seen = set()
     for k, (consts, flt) in enumerate(runs):
         r = done[k]
         results.append(r)
         for c in r.cases:
             items = c["toks"] if fmt == "snappy" else c["seqs"]
-            if flt == 3 and len(items) < 3:
-                continue      # shorter lists already came from the first run
-            if flt == "huge" and not any(t.get("len", t.get("lit", 0)) > 100000 for t in items):
-                continue
+            key = json.dumps(items, sort_keys=True)
+            if key in seen:
+                continue      # the runs overlap on short lists
+            seen.add(key)
             cases.append(c)
     return cases, results
 
@@ -128,14 +130,27 @@ def InfraError_missing(fmt, i):
     return common.InfraError("reference %s harness lost case %d" % (fmt, i))
 
 
+def prefix_keys(fmt, items):
+    """Keys of the proper non-empty prefixes of a token list, as the generators build them."""
+    import json
+    keys = []
+    for k in range(1, len(items)):
+        if fmt == "snappy":
+            pre = items[:k]
+        else:
+            pre = items[:k - 1] + [{"lit": items[k - 1]["lit"], "off": 0, "ml": 0}]
+        keys.append(json.dumps(pre, sort_keys=True))
+    return keys
+
+
 def judge_dir1(chk, fmt, cases, res, faults, leaky):
+    import json
     p = fmt[0]
     dec = fmt + "-dec"
-    fault_ids = {f.case_id: f for f in faults}
-    n_valid = n_bad = n_lenient_rej = 0
+    n_valid = n_bad = n_lenient_rej = implied = 0
+    failures = []          # (kind, case index, tag, cap, got, exp)
     for i, c in enumerate(cases):
         items = c.get("toks", c.get("seqs"))
-        feat = feature(fmt, c)
         exp = res.get("%s%de" % (p, i))
         strict = c.get("strict", True)
         nontrivial = len(items) > 1 or (fmt == "snappy" and items[0]["x"] > 0) or (fmt == "lz4" and items[0]["lit"] >= 15)
@@ -150,17 +165,11 @@ def judge_dir1(chk, fmt, cases, res, faults, leaky):
             n_valid += 1
             if got[0] != "0":
                 if strict:
-                    chk.violation("%s:rejects-valid:%s" % (dec, feat),
-                                  "%s decompress rejects (status %s) a valid block: %s cap=%d stream=%s" % (
-                                      fmt, got[0], items, cap, rope_str(c["s"])[:300]),
-                                  {"fmt": fmt, "tokens": items, "stream": rope_str(c["s"]), "cap": cap, "expect": rope_str(c["out"])})
+                    failures.append(("rejects-valid", i, tag, cap, got, exp))
                 else:
                     n_lenient_rej += 1
             elif got[1] != exp[0] or got[2] != exp[1]:
-                chk.violation("%s:wrong-output:%s" % (dec, feat),
-                              "%s decompress returns OK with wrong bytes for %s: expected len %s %s got len %s %s" % (
-                                  fmt, items, exp[0], exp[1][:64], got[1], got[2][:64]),
-                              {"fmt": fmt, "tokens": items, "stream": rope_str(c["s"]), "cap": cap, "expect": rope_str(c["out"])})
+                failures.append(("wrong-output", i, tag, cap, got, exp))
         for j, b in enumerate(c["bad"]):
             cid = "%s%db%d" % (p, i, j)
             chk.count((fmt, "bad", items, j), True)
@@ -173,6 +182,23 @@ def judge_dir1(chk, fmt, cases, res, faults, leaky):
                               "%s decompress returns OK (%s bytes) for an invalid block (%s) derived from %s: stream=%s cap=%d" % (
                                   fmt, got[1], b["why"], items, rope_str(b["s"])[:300], b["cap"]),
                               {"fmt": fmt, "why": b["why"], "stream": rope_str(b["s"]), "cap": b["cap"], "base": items})
+    # The case space is prefix closed: report a failing list only if none of its proper prefixes
+    # fails too (the element added last is then the one the decoder mishandles).
+    failing = {json.dumps(cases[i].get("toks", cases[i].get("seqs")), sort_keys=True) for _, i, _, _, _, _ in failures}
+    for kind, i, tag, cap, got, exp in failures:
+        c = cases[i]
+        items = c.get("toks", c.get("seqs"))
+        if any(k in failing for k in prefix_keys(fmt, items)):
+            implied += 1
+            continue
+        feat = feature(fmt, c)
+        rep = {"fmt": fmt, "tokens": items, "stream": rope_str(c["s"]), "cap": cap, "expect": rope_str(c["out"])}
+        if kind == "rejects-valid":
+            chk.violation("%s:rejects-valid:%s" % (dec, feat), "%s decompress rejects (status %s) a valid block: %s cap=%d stream=%s" % (
+                fmt, got[0], items, cap, rope_str(c["s"])[:300]), rep)
+        else:
+            chk.violation("%s:wrong-output:%s" % (dec, feat), "%s decompress returns OK with wrong bytes for %s: expected len %s %s got len %s %s" % (
+                fmt, items, exp[0], exp[1][:64], got[1], got[2][:64]), rep)
     for f in faults:
         # find the stream of the faulting case
         cid = f.case_id
@@ -191,7 +217,7 @@ def judge_dir1(chk, fmt, cases, res, faults, leaky):
     for cid in leaky:
         chk.violation("%s:leak" % dec, "leak after %s decompress case %s" % (fmt, cid), cid)
     chk.part(fmt + "-spec-to-impl", valid_streams=n_valid, invalid_streams=n_bad, lenient_rejected=n_lenient_rej,
-             token_lists=len(cases), faults=len(faults))
+             token_lists=len(cases), faults=len(faults), failures_implied_by_a_failing_prefix=implied)
     chk.cov["traces_validated_against_impl"] += n_valid + n_bad
 
 
@@ -333,11 +359,11 @@ def judge_pagecodec(chk, cases, rres, res):
 
 def dir2_descs(tier, workers=None):
     if tier == "quick":
-        consts = ("LitLens = {1, 5, 12, 13, 2100}\nRepOffs = {1, 8, 2048}\nRepLens = {4, 12, 67, 264}\n"
+        consts = ("LitLens = {1, 5, 12, 2100}\nRepOffs = {1, 8, 2048}\nRepLens = {4, 12, 64, 65, 66, 67, 68, 264}\n"
                   "Pads <- PadNone\nMaxSegs = 3\nMaxTotal = 2700\nConfigs <- CfgLz\nCapSels <- CapB")
     else:
         consts = ("LitLens = {1, 4, 5, 6, 11, 12, 13, 61, 257, 2100}\nRepOffs = {1, 2, 7, 8, 2047, 2048}\n"
-                  "RepLens = {4, 11, 12, 64, 65, 68, 130, 1000}\nPads <- PadNone\nMaxSegs = 3\nMaxTotal = 4096\n"
+                  "RepLens = {4, 11, 12, 64, 65, 66, 67, 68, 130, 1000}\nPads <- PadNone\nMaxSegs = 3\nMaxTotal = 4096\n"
                   "Configs <- CfgLz\nCapSels <- CapB")
     r = cl.tlc_gen("MC_CodecCases", consts, what="MC_CodecCases (C10 inputs)", workers=workers)
     return r.cases, r
